@@ -20,7 +20,7 @@ from props.c04 import root_signature
 PROP = "C07"
 
 
-def gen(rng, n):
+def gen(rng, n, force=None):
     v = rng.normal(size=n + 1)
     r = rng.random()
     if r < 0.3:
@@ -31,15 +31,15 @@ def gen(rng, n):
     norm = float(rng.uniform(0.05, 0.9)) if rng.random() < 0.85 else float(rng.uniform(0.9, 1.5))
     v = v / np.abs(v).sum() * norm
     eps = float(10 ** rng.uniform(-5, -2))
-    if n >= 2 and rng.random() < 0.25:
+    if n >= 2 and (force == "tiny-interior" or (force is None and rng.random() < 0.25)):
         # tiny but non-zero interior coefficients together with a tight budget
         klass += "/tiny-interior"
         for i in rng.choice(np.arange(1, n), size=min(n - 1, int(rng.integers(1, 4))), replace=False):
-            v[int(i)] = float(rng.choice([-1, 1])) * float(10 ** rng.uniform(-7, -5))
+            v[int(i)] = float(rng.choice([-1, 1])) * float(10 ** (rng.uniform(-7, -5) if force is None else rng.uniform(-5.3, -5.02)))
         if klass.startswith("symmetric"):
             v = (v + v[::-1]) / 2
-        eps = float(10 ** rng.uniform(-5, -4.3))
-    if n >= 4 and rng.random() < 0.2:
+        eps = float(10 ** (rng.uniform(-5, -4.3) if force is None else rng.uniform(-5, -4.9)))      # forced: the tightest budget of the box
+    if n >= 4 and (force == "decaying" or (force is None and rng.random() < 0.2)):
         # structured, not random: coefficients decaying geometrically / like a Gaussian away from the centre (truncated
         # Fourier or Jacobi-Anger tails), outermost ones tiny against the centre, with a tight budget
         klass = "decaying"
@@ -51,7 +51,7 @@ def gen(rng, n):
         v = v * rng.choice([-1.0, 1.0], size=n + 1) if rng.random() < 0.5 else v
         v = v / np.abs(v).sum() * float(rng.uniform(0.3, 0.9))
         eps = float(10 ** rng.uniform(-5, -4))
-    if n >= 2 and rng.random() < 0.12:
+    if n >= 2 and (force == "zeros" or (force is None and rng.random() < 0.12)):
         # exact zeros in a regular pattern (every other entry, or everything but the ends / the centre): legal compact vectors
         # that LOOK like another layout (a full-range vector with its parity zeros written out)
         pat = str(rng.choice(["odd-index-zero", "only-ends", "only-even-index-ends"]))
@@ -66,9 +66,9 @@ def gen(rng, n):
         if np.abs(v).sum() > 0:
             v = v / np.abs(v).sum() * norm
     suc = float(1 - 10 ** rng.uniform(-5, -2))
-    if rng.random() < 0.12:
+    if force is None and rng.random() < 0.12:
         eps, suc = 1e-4, 1 - 1e-4                          # the library defaults (the call then leaves them out)
-    if rng.random() < 0.15:
+    if force is None and rng.random() < 0.15:
         eps = float(rng.choice([1e-5, 1e-2]))            # corners of the stated box
         suc = float(rng.choice([0.99, 1 - 1e-5]))
     box = (np.abs(v).sum() <= 0.9) and n <= 12 and 1e-5 <= eps <= 1e-2 and 0.99 <= suc <= 1 - 1e-5
@@ -263,6 +263,22 @@ def run(tier, seed):
                 fac = 1.0 - float(rng.choice([1e-3, 2e-4, 3e-5, 1e-6]))
                 ctx.count("session:sweep-step-after-request")
                 one(ctx, A, [float(x) * fac for x in p], klass, eps, suc, box, vecs[int(rng.integers(0, len(vecs)))])
+    # every CLASS of input in every run, whatever the seed (the plan above draws the classes at random)
+    for n in ((2, 4, 6, 9) if tier == "quick" else (2, 3, 4, 5, 6, 8, 9, 12)):
+        for force in ("tiny-interior", "decaying", "zeros"):
+            if force == "decaying" and n < 4:
+                continue
+            p, klass, eps, suc, box = gen(rng, n, force)
+            ctx.count("class-coverage-block:" + force)
+            with core.quiet(), P.forced_seed([0] * 256) as calls:
+                try:
+                    A.angle_sequence(list(p), eps=eps, suc=suc)
+                except Exception:  # noqa
+                    pass
+            k = calls[0] if calls else 0
+            vecs, complete = P.seed_vectors(rng, k, 2, 3) if k else ([None], True)
+            for bv in vecs:
+                one(ctx, A, p, klass, eps, suc, box, bv)
     # threshold-adjacent inputs inside the box: the capitalised, rescaled polynomial suc*(p + eps/4 at both ends) has an
     # inner conjugate root pair of 1 - F F~ with imaginary part 1e-8..1e-6 (constructed by bisection, see pipeline.near_collision)
     for n in ([2, 3, 5, 7, 9, 12] if tier == "quick" else list(range(2, 13)) * 3):
